@@ -325,9 +325,13 @@ def main(tier, replay=None):
             iout += o
             if len(iout) >= len(lines):
                 break
-            if rc == 0 or len(crashed) >= 25:
+            if rc == 0:
                 chk.broke("implementation harness failed (rc=%s, %d/%d lines)" % (rc, len(iout), len(cases)), ierr)
                 return chk.finish()
+            if len(crashed) >= 25:     # enough crashing inputs located: the rest of this chunk is not run
+                chk.notes.append("more than 25 crashes of the implementation in one chunk: %d cases not run" % (len(lines) - len(iout)))
+                iout += ["NOT-RUN"] * (len(lines) - len(iout))
+                break
             crashed[len(iout)] = rc
             iout.append("CRASH(rc=%s)" % rc)
             start = len(iout)
@@ -346,6 +350,8 @@ def main(tier, replay=None):
             if ret is not None and not fits(exp[0], ret):
                 specified = False          # the mathematical remainder is not representable in the return type
                 nunspec += 1
+            if iout[i] == "NOT-RUN":
+                continue
             got = norm(iout[i])
             exps = [str(x) for x in exp]
             dist_form[f] = dist_form.get(f, 0) + 1
